@@ -1,5 +1,221 @@
-//! C18 - monitor not written yet.
+//! C18 - PKGNAME decomposition is lossless and consistent across the library.
+//!
+//! Refuting events: `pkgbase + "-" + pkgversion != name` when the name has a
+//! '-', or `(name, "")` is not returned when it has none; for a version
+//! ending in `nb<digits>`, `pkgrevision() != Some(digits as number)`, or that
+//! number is not the one the matcher uses (observed black-box through
+//! `Pattern`); `pkgrevision()` is `Some` for a version without `nb`;
+//! `Summary::pkgbase/pkgversion` differ from `PkgName` for names with
+//! non-empty base and version.
 
-use crate::fw::Cx;
+use crate::corpus;
+use crate::fw::{CaseResult, Cx, Ev, Tier};
+use crate::gen::misc as gm;
+use crate::oracle::dewey::{self as od, Op};
+use crate::oracle::misc::{self as om, Revision};
+use crate::rng::hash_bytes;
+use pkgsrc::summary::Summary;
+use pkgsrc::{Pattern, PkgName};
 
-pub fn run(_cx: &mut Cx) {}
+fn check_name(ev: &mut Ev, name: &str) -> CaseResult {
+    let (base, version) = om::split_last_dash(name);
+    let dashes = om::count_dashes(name);
+    let nbs = om::count_nb(name);
+    ev.count(&format!("dashes/{}", dashes.min(4)));
+    ev.count(&format!("nb/{}", if nbs >= 2 { "2+".to_string() } else { nbs.to_string() }));
+
+    let p = PkgName::new(name);
+    ev.evals(3);
+    if p.pkgname() != name {
+        return Err(format!("pkgname() is {:?}", p.pkgname()).into());
+    }
+    if p.pkgbase() != base || p.pkgversion() != version {
+        return Err(format!(
+            "PkgName splits into ({:?}, {:?}), the last '-' gives ({base:?}, {version:?})",
+            p.pkgbase(),
+            p.pkgversion()
+        )
+        .into());
+    }
+    // losslessness, stated on the library's own outputs
+    let rebuilt = if dashes > 0 {
+        format!("{}-{}", p.pkgbase(), p.pkgversion())
+    } else {
+        format!("{}{}", p.pkgbase(), p.pkgversion())
+    };
+    if rebuilt != name {
+        return Err(format!("base, '-' and version rebuild {rebuilt:?}").into());
+    }
+
+    match om::revision(version) {
+        Revision::Ends(n) => {
+            ev.eval();
+            ev.count("revision/ends_nb");
+            if p.pkgrevision() != Some(n) {
+                return Err(format!(
+                    "version {version:?} ends in nb{n}: pkgrevision() is {:?}, expected Some({n})",
+                    p.pkgrevision()
+                )
+                .into());
+            }
+        }
+        Revision::NoNb => {
+            ev.eval();
+            ev.count("revision/no_nb");
+            if p.pkgrevision().is_some() {
+                return Err(format!(
+                    "version {version:?} has no nb: pkgrevision() is {:?}, expected None",
+                    p.pkgrevision()
+                )
+                .into());
+            }
+        }
+        Revision::Unspecified => ev.count("revision/unspecified_not_compared"),
+    }
+
+    if !base.is_empty() && !version.is_empty() {
+        ev.evals(2);
+        ev.count("summary/compared");
+        let mut s = Summary::new();
+        s.set_pkgname(name);
+        if s.pkgbase() != Some(base) || s.pkgversion() != Some(version) {
+            return Err(format!(
+                "Summary gives pkgbase {:?} / pkgversion {:?}, PkgName's split is ({base:?}, {version:?})",
+                s.pkgbase(),
+                s.pkgversion()
+            )
+            .into());
+        }
+    } else {
+        ev.count("summary/empty_part_not_compared");
+    }
+    if dashes >= 2 || nbs >= 2 {
+        ev.nontrivial(hash_bytes(name.as_bytes()));
+    }
+    Ok(())
+}
+
+fn check_probe(ev: &mut Ev, pr: &gm::Probe) -> CaseResult {
+    let version = format!("{}nb{}", pr.prefix, pr.digits);
+    let name = format!("{}-{}", pr.base, version);
+    ev.count("probe/matcher");
+    let p = PkgName::new(&name);
+    ev.evals(2);
+    if p.pkgbase() != pr.base || p.pkgversion() != version {
+        return Err(format!(
+            "PkgName splits {name:?} into ({:?}, {:?})",
+            p.pkgbase(),
+            p.pkgversion()
+        )
+        .into());
+    }
+    if p.pkgrevision() != Some(pr.n) {
+        return Err(format!("pkgrevision() is {:?}, expected Some({})", p.pkgrevision(), pr.n).into());
+    }
+    // The matcher must use the same base and the same revision.
+    let probes = [
+        (format!("{}>={}nb{}", pr.base, pr.prefix, pr.n), true, "N with >="),
+        (format!("{}>{}nb{}", pr.base, pr.prefix, pr.n), false, "N with >"),
+        (format!("{}<={}nb{}", pr.base, pr.prefix, pr.n), true, "N with <="),
+        (format!("{}<{}nb{}", pr.base, pr.prefix, pr.n), false, "N with <"),
+        (format!("{}>{}nb{}", pr.base, pr.prefix, pr.n - 1), true, "N-1 with >"),
+        (format!("{}<={}nb{}", pr.base, pr.prefix, pr.n - 1), false, "N-1 with <="),
+        (format!("{}<{}nb{}", pr.base, pr.prefix, pr.n + 1), true, "N+1 with <"),
+        (format!("{}>={}nb{}", pr.base, pr.prefix, pr.n + 1), false, "N+1 with >="),
+    ];
+    for (pat, want, what) in probes.iter() {
+        ev.eval();
+        let m = Pattern::new(pat)
+            .map_err(|e| format!("Pattern::new({pat:?}) failed: {e}"))?
+            .matches(&name);
+        if m != *want {
+            return Err(format!(
+                "{pat:?} on {name:?} ({what}): matches = {m}, expected {want}: the matcher does not use revision {} reported by pkgrevision()",
+                pr.n
+            )
+            .into());
+        }
+    }
+    ev.nontrivial(hash_bytes(name.as_bytes()));
+    Ok(())
+}
+
+/// The probe expectations are restated with the reference dewey model; a
+/// probe on which the reference disagrees with them is a generator bug and
+/// is dropped before it reaches the library.
+fn probe_is_sound(pr: &gm::Probe) -> bool {
+    let a = format!("{}nb{}", pr.prefix, pr.digits);
+    let eq = format!("{}nb{}", pr.prefix, pr.n);
+    let lo = format!("{}nb{}", pr.prefix, pr.n - 1);
+    let hi = format!("{}nb{}", pr.prefix, pr.n + 1);
+    let t = |op: Op, b: &str| {
+        let s = od::satisfies(&a, op, b);
+        s.in_domain && s.rank == s.ascii && s.rank
+    };
+    let f = |op: Op, b: &str| {
+        let s = od::satisfies(&a, op, b);
+        s.in_domain && s.rank == s.ascii && !s.rank
+    };
+    t(Op::Ge, &eq)
+        && f(Op::Gt, &eq)
+        && t(Op::Le, &eq)
+        && f(Op::Lt, &eq)
+        && t(Op::Gt, &lo)
+        && f(Op::Le, &lo)
+        && t(Op::Lt, &hi)
+        && f(Op::Ge, &hi)
+}
+
+pub fn run(cx: &mut Cx) {
+    cx.default_budget();
+    for k in [
+        "dashes/0", "dashes/1", "dashes/2", "dashes/3", "dashes/4", "nb/0", "nb/1", "nb/2+",
+        "revision/ends_nb", "revision/no_nb", "probe/matcher", "summary/compared",
+    ] {
+        cx.ev.require(k);
+    }
+
+    // (a) generated names
+    let n = cx.per_shard(400, 20_000, 300_000, 3_000_000);
+    let mut r = cx.stream("names");
+    for _ in 0..n {
+        let name = gm::name(&mut r);
+        cx.check(|| format!("name {name:?}"), |ev| {
+            ev.count("workload/generated");
+            check_name(ev, &name)
+        });
+    }
+
+    // (b) black-box revision probes
+    let n = cx.per_shard(160, 8_000, 120_000, 1_200_000);
+    let mut r = cx.stream("probes");
+    for _ in 0..n {
+        let pr = loop {
+            let pr = gm::probe(&mut r);
+            if probe_is_sound(&pr) {
+                break pr;
+            }
+            cx.ev.count("probe/dropped_by_reference");
+        };
+        cx.check(
+            || format!("probe {}-{}nb{} (N={})", pr.base, pr.prefix, pr.digits, pr.n),
+            |ev| check_probe(ev, &pr),
+        );
+    }
+
+    // (c) corpus names
+    if cx.tier != Tier::Mini {
+        let names = corpus::names();
+        let step = cx.pick_tier(64u64, 8, 1, 1);
+        for (i, name) in names.iter().enumerate() {
+            let i = i as u64;
+            if i % step != 0 || !cx.mine(i / step) {
+                continue;
+            }
+            cx.check(|| format!("corpus name {name:?}"), |ev| {
+                ev.count("workload/corpus");
+                check_name(ev, name)
+            });
+        }
+    }
+}
